@@ -65,7 +65,9 @@ def gen_specs(ctx, count):
             # which cannot share a word
             m = rng.randint(70, 120)
             spec.seq = U.rand_seq(rng, m, "ACGT")
-            spec.rate = rng.choice([1, 2, 2, 3]) / m
+            # (rate 0 or one error on more than 128 characters: some k-mer is longer than a machine word, the finder refuses and the
+            # adapter is searched without prefilter)
+            spec.rate = rng.choice([0, 1, 2, 2, 3]) / m
             spec.adapter_wildcards = False
             spec.min_overlap = rng.choice([3, 20])
         out.append(spec)
